@@ -38,6 +38,8 @@ def run(F, rep, tier):
     isolation(F, rep)
     import_names(F, rep)
     path_forms(F, rep)
+    import c05
+    c05.start_rules(F, rep)
 
 
 def visit_once(F, rep):
